@@ -297,6 +297,20 @@ func (c *Compiler) processDeviations(module *parse.Module) {
 
 func (c *Compiler) doDeviate(target, deviate parse.Node, dp deviateProcessor) {
 
+	// The parser leaves the cardinality of the substatements of a
+	// deviate statement to the compiler: a property that the statement
+	// takes at most once must not be named twice.
+	seen := make(map[parse.NodeType]bool)
+	for _, property := range deviate.Children() {
+		pt := property.Type()
+		if seen[pt] && deviate.GetCardinalityEnd(pt) == '1' {
+			c.error(deviate, fmt.Errorf(
+				"Property '%s' appears more than once in %s", pt, deviate.Type()))
+			return
+		}
+		seen[pt] = true
+	}
+
 	for _, property := range deviate.Children() {
 		err := dp.isAllowed(target, property, c.getExtCardinality())
 		if err != nil {
